@@ -99,3 +99,14 @@ CLAIMED["C15"] = (
     "that fails the link of one chosen flow; TLC validates every flow (complete delivery before an orderly end, prompt end on the other side) and that "
     "the socket counts of client and server after each batch equal the idle baseline.",
     TB + "; Engine B (lib/e2e.py) with lib.e2e.Middlebox; loopback only; tasks observed through the descriptors they hold", "5.15")
+CLAIMED["C02"] = (
+    "model_checking", "TLA+ UdpRelay (abstract datagram relay) + UdpDesign (binding table, LRU eviction, reply tasks, association table, lossy duplicating network; TLC refinement, deviations), send histories exported by TLC executed by scripted SOCKS5-UDP applications and UDP targets around real client/server processes, every history validated by TLC against TraceUdp",
+    "TLC checks that the code-shaped UdpDesign (client binding table keyed by sender [and target for VMess] with LRU eviction, one reply task per binding that "
+    "remembers its sender, server association per session / per flow with its own source address, replies labelled with the address they came from, a "
+    "network that loses and duplicates) refines the abstract UdpRelay (NoInvent, RightTarget, Whole, NoDup, OneOwnerPerSource, ReplyToOwner, Label) for "
+    "2 applications x 2 targets x 3 datagrams x 2 replies with capacity 1, for the Shadowsocks, Trojan and VMess families, and that six named deviations "
+    "break it; TLC exports every send history up to 2 (thorough: 3) steps (who, to whom, size class 0 / tiny / small / framing boundary / large, 0-2 "
+    "replies, reply from a never-addressed target); sampled histories, randomised histories of 2-6 applications and 4 targets (IPv4 and name), more "
+    "senders than the binding table holds, mixed-kind target addresses on interleaved ports and two clients of different users run on 8 (thorough: all "
+    "22) UDP-capable configurations; TLC validates every observed history, and at Settle that every datagram the path can carry arrived.",
+    TB + "; Engine B datagram side (lib/udprun.py); loopback only, paced sends", "5.2")
